@@ -23,6 +23,8 @@ type c07plan struct {
 	sameID  bool     // clashing ids
 	behave  []string // per caller: recv | cancel | abandon
 	respond string   // once | twice | foreign-then-once | late | none
+	seqReuse    bool // one caller, two requests one after the other with the same id under one context
+	handlerAsks bool // the ordinary iq route reacts to a stray IQ by sending a request of its own
 }
 
 func (p c07plan) name() string {
@@ -30,7 +32,14 @@ func (p c07plan) name() string {
 	if p.comp {
 		who = "component"
 	}
-	return fmt.Sprintf("%s/reqs=%d/sameid=%v/behave=%s/respond=%s", who, p.reqs, p.sameID, strings.Join(p.behave, "+"), p.respond)
+	extra := ""
+	if p.seqReuse {
+		extra += "/seq-reuse"
+	}
+	if p.handlerAsks {
+		extra += "/handler-asks"
+	}
+	return fmt.Sprintf("%s/reqs=%d/sameid=%v/behave=%s/respond=%s%s", who, p.reqs, p.sameID, strings.Join(p.behave, "+"), p.respond, extra)
 }
 
 type c07end struct {
@@ -45,6 +54,10 @@ type c07end struct {
 
 // c07component builds a component against a scripted server (handshake accepted).
 func c07component(served func(sc *srvConn)) (*c07end, error) {
+	return c07componentH(served, nil)
+}
+
+func c07componentH(served func(sc *srvConn), onPacket func(s Sender, p stanza.Packet)) (*c07end, error) {
 	w := vnet.NewWorld()
 	var conn *srvConn
 	w.Listen("example.org:5347", &vnet.Listener{Accept: func(k int, c *vnet.Conn) (func(), error) {
@@ -67,9 +80,12 @@ func c07component(served func(sc *srvConn)) (*c07end, error) {
 	}})
 	router := NewRouter()
 	routed := &[]string{}
-	router.NewRoute().HandlerFunc(func(_ Sender, p stanza.Packet) {
+	router.NewRoute().HandlerFunc(func(sd Sender, p stanza.Packet) {
 		*routed = append(*routed, describePacket(p))
 		vrt.Log("routed %s", describePacket(p))
+		if onPacket != nil {
+			onPacket(sd, p)
+		}
 	})
 	opts := ComponentOptions{TransportConfiguration: TransportConfiguration{Address: "example.org:5347", Domain: "comp.example.org"},
 		Domain: "comp.example.org", Secret: "s"}
@@ -98,6 +114,10 @@ func c07body(p c07plan) func() {
 				id := attr(u.raw, "id")
 				res := fmt.Sprintf("<iq type='result' id='%s' from='example.org'/>", id)
 				answered[id]++
+				if id == "final" || id == "hreq" {
+					sc.send(res) // requests of the probe phase / of the handler are simply answered
+					continue
+				}
 				switch p.respond {
 				case "once":
 					sc.send(res)
@@ -112,18 +132,34 @@ func c07body(p c07plan) func() {
 			}
 		}
 		var end *c07end
+		asked := false
+		onPacket := func(sd Sender, pk stanza.Packet) {
+			iq, ok := pk.(*stanza.IQ)
+			if !p.handlerAsks || !ok || asked || (iq.Type != stanza.IQTypeResult && iq.Type != stanza.IQTypeError) {
+				return
+			}
+			asked = true
+			ctx, _ := vrt.WithTimeout(vrt.Background(), 60*time.Second)
+			q := &stanza.IQ{Attrs: stanza.Attrs{Type: stanza.IQTypeGet, Id: "hreq", To: "example.org"}, Payload: &stanza.DiscoInfo{}}
+			_, _ = sd.SendIQ(ctx, q)
+		}
 		if p.comp {
 			var err error
-			end, err = c07component(served)
+			end, err = c07componentH(served, onPacket)
 			if err != nil {
 				vrt.Fail("C07|harness|component", "%v", err)
 				return
 			}
 		} else {
-			s := newSess(sessOpts{keepalive: 3600, served: func(sc *srvConn, r *negRec) { served(sc) }})
+			s := newSess(sessOpts{keepalive: 3600, noCatchAll: true, served: func(sc *srvConn, r *negRec) { served(sc) }})
 			if s.cl == nil {
 				return
 			}
+			s.router.NewRoute().HandlerFunc(func(sd Sender, pk stanza.Packet) {
+				s.routed = append(s.routed, describePacket(pk))
+				vrt.Log("routed %s", describePacket(pk))
+				onPacket(sd, pk)
+			})
 			end = &c07end{sender: s.cl, router: s.router, routed: &s.routed, sc: func() *srvConn { return s.conn(0) }, connect: s.cl.Connect}
 		}
 		if err := end.connect(); err != nil {
@@ -135,6 +171,7 @@ func c07body(p c07plan) func() {
 		_ = release
 
 		type callerRes struct {
+			first  string
 			got    []string
 			closed bool
 			err    error
@@ -160,6 +197,23 @@ func c07body(p c07plan) func() {
 					res.done = true
 					cancel()
 					return
+				}
+				if p.seqReuse {
+					// first request: wait for its answer, then ask again at once with the same id
+					c0 := vrt.RecvCase((<-chan stanza.IQ)(ch))
+					c1 := vrt.RecvCase(ctx.Done())
+					if vrt.Select(false, c0, c1) == 0 && c0.Ok {
+						res.first = c0.Val.Id
+					}
+					iq2, _ := stanza.NewIQ(stanza.Attrs{Type: stanza.IQTypeGet, Id: id, To: "example.org"})
+					iq2.Payload = &stanza.DiscoInfo{}
+					ch, err = end.sender.SendIQ(ctx, iq2)
+					if err != nil {
+						res.err = err
+						res.done = true
+						cancel()
+						return
+					}
 				}
 				switch behave {
 				case "abandon":
@@ -225,6 +279,40 @@ func c07body(p c07plan) func() {
 			who = "component"
 		}
 		desc := p.name()
+		// a request made now must still get through and be answered
+		finalGot := ""
+		vrt.Go("final-caller", func() {
+			ctx, cancel := vrt.WithTimeout(vrt.Background(), 60*time.Second)
+			defer cancel()
+			q := &stanza.IQ{Attrs: stanza.Attrs{Type: stanza.IQTypeGet, Id: "final", To: "example.org"}, Payload: &stanza.DiscoInfo{}}
+			ch, err := end.sender.SendIQ(ctx, q)
+			if err != nil {
+				finalGot = "error: " + err.Error()
+				return
+			}
+			c0 := vrt.RecvCase((<-chan stanza.IQ)(ch))
+			c1 := vrt.RecvCase(ctx.Done())
+			if vrt.Select(false, c0, c1) == 0 && c0.Ok {
+				finalGot = c0.Val.Id
+			} else {
+				finalGot = "nothing"
+			}
+		})
+		vrt.Sleep(100 * time.Second)
+		vrt.WaitIdle()
+		if finalGot != "final" {
+			cls := "respond=" + p.respond
+			if p.handlerAsks {
+				cls += "|handler-asks"
+			}
+			vrt.Fail("C07|later-request-blocked|"+who+"|"+cls, "%s: a SendIQ made after everything settled got %q (alive threads: %v)", desc, finalGot, vrt.Alive())
+		}
+		if p.seqReuse {
+			r0 := results[0]
+			if r0.first != "req0" || len(r0.got) != 1 || r0.got[0] != "req0" {
+				vrt.Fail("C07|reused-id-second-request-lost|"+who, "%s: two requests in a row with id req0 under one context: first answer %q, second %v; ordinary routes got %v", desc, r0.first, r0.got, *end.routed)
+			}
+		}
 		if !probeOK {
 			vrt.Fail("C07|processing-blocked|"+who+"|respond="+p.respond+"|behave="+strings.Join(p.behave, "+"), "%s: a stanza sent afterwards was not routed; alive threads: %v", desc, vrt.Alive())
 		}
@@ -339,6 +427,12 @@ func TestVerifC07(t *testing.T) {
 					plans = append(plans, c07plan{comp: comp, reqs: 2, sameID: same, behave: b, respond: respond})
 				}
 			}
+		}
+	}
+	for _, comp := range []bool{false, true} {
+		plans = append(plans, c07plan{comp: comp, reqs: 1, behave: []string{"recv"}, respond: "once", seqReuse: true})
+		for _, respond := range []string{"twice", "foreign-then-once"} {
+			plans = append(plans, c07plan{comp: comp, reqs: 1, behave: []string{"recv"}, respond: respond, handlerAsks: true})
 		}
 	}
 	var scs []hx.Scenario
